@@ -706,6 +706,86 @@ theorem C08_rename_table {F P W : Type} (s : FS F P W) (old new : String) :
                     refine ⟨⟨(fun _ => ⟨hsp', hdot', od, nd, _, rfl, rfl, hch, hself, fun k h => by rw [hex] at h; cases h⟩),
                       (fun _ => rfl)⟩, (fun h => absurd rfl h)⟩
 
+/-- **A failed open changes nothing** (any file implementation, any flag combination): whenever
+`openFile` returns an error — missing path, O_EXCL on an existing target, O_SYNC, invalid access
+mode, O_TRUNC on a read-only handle or a directory, … — the filesystem state is exactly what it was.
+(In particular O_EXCL|O_TRUNC on an existing file does not truncate it: the class of seeded change
+C08-d.) -/
+theorem C08_open_fail_unchanged {F P W : Type} (impl : FileImpl F P W) (s : FS F P W) (path : String) (acc : Nat)
+    (app cre excl trunc sync dirPerm : Bool) (e : Err)
+    (h : (openFile impl s path acc app cre excl trunc sync dirPerm).2 = Except.error e) :
+    (openFile impl s path acc app cre excl trunc sync dirPerm).1 = s := by
+  unfold openFile at h ⊢
+  generalize splitDirBase path = sp at h ⊢
+  obtain ⟨dcomps, name⟩ := sp
+  dsimp only at h ⊢
+  by_cases h1 : sync = true
+  · rw [if_pos h1]
+  · rw [if_neg h1] at h ⊢
+    cases hl : lookupDir s dcomps with
+    | error e' => rfl
+    | ok d =>
+      rw [hl] at h
+      dsimp only at h ⊢
+      by_cases h2 : acc > 2
+      · rw [if_pos h2]
+      · rw [if_neg h2] at h ⊢
+        by_cases h3 : (!(acc == 1 || acc == 2) && (name == "." || name == "")) = true
+        · rw [if_pos h3]
+        · rw [if_neg h3] at h ⊢
+          by_cases h4 : (!(acc == 1 || acc == 2) && name == "..") = true
+          · rw [if_pos h4]
+          · rw [if_neg h4] at h ⊢
+            by_cases h5 : special name = true
+            · rw [if_pos h5]
+            · rw [if_neg h5] at h ⊢
+              cases hc : child s.ents d name with
+              | none =>
+                rw [hc] at h
+                dsimp only at h ⊢
+                by_cases h6 : (!cre) = true
+                · rw [if_pos h6]
+                · rw [if_neg h6] at h
+                  dsimp only at h
+                  cases h
+              | some n =>
+                rw [hc] at h
+                dsimp only at h ⊢
+                by_cases h6 : excl = true
+                · rw [if_pos h6]
+                · rw [if_neg h6] at h ⊢
+                  by_cases h7 : trunc = true
+                  · rw [if_pos h7] at h ⊢
+                    by_cases h8 : (!(acc == 1 || acc == 2)) = true
+                    · rw [if_pos h8]
+                    · rw [if_neg h8] at h ⊢
+                      cases n with
+                      | dir k => rfl
+                      | file f =>
+                        dsimp only at h ⊢
+                        cases hf : s.files[f]? with
+                        | none => rfl
+                        | some nc =>
+                          rw [hf] at h
+                          dsimp only at h ⊢
+                          cases ht : impl.trunc nc.2 0 with
+                          | error e'' => rfl
+                          | ok c' => rw [ht] at h; dsimp only at h; cases h
+                  · rw [if_neg h7] at h
+                    cases h
+
+/-- **Access modes**: a write through a handle that is not writable fails with `rofile`, a read
+through a handle that is not readable fails with `wronly`; neither changes anything. -/
+theorem C08_access_mode_table {F P W : Type} (impl : FileImpl F P W) (s : FS F P W) (h : Nat) (hd : Handle P)
+    (hg : getHandle s h = some hd) :
+    (hd.wr = false → ∀ data, step impl s (Op.write h data) = (s, Res.wrote 0 Err.rofile)) ∧
+    (hd.rd = false → ∀ n, step impl s (Op.read h n) = (s, Res.data [] Err.wronly)) := by
+  constructor
+  · intro hw data
+    simp only [step, hg, hw, Bool.not_false, if_true]
+  · intro hr n
+    simp only [step, hg, handleRead, hr, Bool.not_false, if_true]
+
 /-! ### Non-vacuity -/
 
 /-- a non-trivial state satisfying the invariant: the example file of Props/C08 under the name "f"
